@@ -34,7 +34,7 @@ impl C10 {
         let window = (101 * nn * nn + nn + 10).min(80_000);
         let pf = reflang::preflight(&sc.cmds, &sc.stdin, window, sc.cap_bits, false);
         // writing a value of 2^32 or more: what is written is unspecified, but optimising such a program is not
-        let unspecified_output = matches!(&pf.halt, Halt::Ended(End::Unspecified(m)) if m.starts_with("output value"));
+        let unspecified_output = sc.knob("output_edge") == 1 && matches!(&pf.halt, Halt::Ended(End::Unspecified(m)) if m.starts_with("output value"));
         if matches!(pf.halt, Halt::Cap | Halt::Memory) || (matches!(pf.halt, Halt::Ended(End::Unspecified(_))) && !unspecified_output) {
             return (0, None);
         }
@@ -128,6 +128,7 @@ impl Property for C10 {
             // output edge family (drawn last): the pre-executed part writes something and then a value that is
             // no plain character (2^32·k + low word, surrogate, above U+10FFFF)
             sc.cmds = gen::output_edge(rng);
+            sc.set_knob("output_edge", 1);
         }
         sc
     }
@@ -149,7 +150,9 @@ impl Property for C10 {
                 out.skipped = Some("values leave the cap inside the speculation window");
                 return out;
             }
-            Halt::Ended(End::Unspecified(m)) if !m.starts_with("output value") => {
+            // past an unspecified step the model bounds nothing (number sizes, running time): only the straight-line
+            // output edge family goes on from there
+            Halt::Ended(End::Unspecified(m)) if !(m.starts_with("output value") && sc.knob("output_edge") == 1) => {
                 out.skipped = Some("unspecified behaviour inside the speculation window");
                 return out;
             }
